@@ -33,6 +33,9 @@ RULE = ("random nested directory graphs (as C21: mutable SDMF/MDMF directories w
         "and into which a newer client's write-cap-only entry is written raw and then re-packed (set_metadata_for, "
         "move_child_to, copy via initial_children, sibling edit): nothing a holder of just the root read cap can read "
         "(decrypted contents of every directory, caps and metadata exposed by read-only nodes) may contain that cap; "
+        "plus directories whose mutable children are named in the writer client's access.blacklist (ProhibitedNode) and "
+        "are re-packed while prohibited (rename, set_metadata_for, set_node of the listed node, copy, create_subdirectory) "
+        "— the read-cap holder must still not see their write caps; "
         "non-trivial = the directory has a child linked by write cap / "
         "the walk reaches at least 2 nodes")
 TRUSTED = ["lean/Tahoe/Dir/Authority.lean: term algebra and derivation rules chosen by hand to mirror _encrypt_rw_uri",
@@ -401,6 +404,83 @@ def lone_case(ctx, W, case):
     judge("raw-entry+sibling-edit", s4, ",".join(out))
 
 
+PROHIBITED_CORPUS = [{"prohibited": True, "mdmf": False, "depth": 1}, {"prohibited": True, "mdmf": True, "depth": 2}]
+
+
+def prohibited_case(ctx, W, case):
+    """The writer's client has an access.blacklist naming mutable children of a directory (NodeMaker wraps them in
+    ProhibitedNode).  While they are prohibited their entries are re-packed (rename, set_metadata_for, set_node of the
+    listed node, copy of the listing, create_subdirectory(initial_children=...)).  As always: nothing a holder of just the
+    root read cap can read may contain a descendant's write cap."""
+    from allmydata.interfaces import MDMF_VERSION, SDMF_VERSION
+    from allmydata.mutable.publish import MutableData
+    from allmydata.util import base32
+    rt, writer, stranger, g = W["rt"], W["c"], W["c2"], W["g"]
+    fmt = MDMF_VERSION if case["mdmf"] else SDMF_VERSION
+    dirs = [rt.wait(writer.create_dirnode(version=fmt)) for _ in range(case["depth"] + 1)]
+    for a, b in zip(dirs, dirs[1:]):
+        rt.wait(a.set_uri("sub", b.get_uri(), b.get_readonly_uri()))
+    root, T = dirs[0], dirs[-1]
+    F = rt.wait(writer.create_mutable_file(MutableData(b"prohibited file"), version=fmt))
+    S = rt.wait(writer.create_dirnode(version=fmt))
+    rt.wait(S.set_uri("inner", None, b"URI:LIT:nfxgk"))
+    rt.wait(T.set_uri("file", F.get_uri(), F.get_readonly_uri()))
+    rt.wait(T.set_uri("dir", S.get_uri(), S.get_readonly_uri()))
+    secrets = []
+    for n in (F, S):
+        secrets.append(n.get_uri())
+        parts = n.get_uri().split(b":")
+        secrets.append(parts[2])            # the write key field of the cap
+
+    def attempt(f):
+        try:
+            rt.wait(f())
+            return "accepted"
+        except Exception as e:  # noqa
+            return type(e).__name__
+
+    def judge(step, outcome):
+        ok, blobs = guarded(ctx, case, "reading the tree with the root read cap (%s)" % step,
+                            lambda: readcap_view(rt, stranger, root.get_readonly_uri()))
+        if not ok:
+            return
+        for where, blob in blobs:
+            if any(sec in blob for sec in secrets):
+                ctx.violation("the write cap of a blacklisted child is visible to a holder of the directory read cap",
+                              case, "writecap-visible-to-readcap-holder:prohibited-node-repacked",
+                              {"where": where, "step": step, "outcome": outcome, "format": "MDMF" if case["mdmf"] else "SDMF"})
+                break
+        ctx.case(("prohibited", step, case["mdmf"], outcome))
+        ctx.count("prohibited:%s:%s" % (step, outcome))
+
+    fn = os.path.join(g.basedir, "clients", "00", "access.blacklist")
+
+    def write_blacklist(lines):
+        with open(fn, "wb") as f:
+            f.write(b"".join(lines))
+        W["mtime"] = W.get("mtime", os.stat(fn).st_mtime) + 10
+        os.utime(fn, (W["mtime"], W["mtime"]))
+    judge("before", "-")
+    write_blacklist([base32.b2a(n.get_storage_index()) + b" c18 corpus\n" for n in (F, S)])
+    try:
+        listing = rt.wait(T.list())
+        ctx.count("prohibited-nodes-listed", sum(1 for (n, md) in listing.values() if type(n).__name__ == "ProhibitedNode"))
+        judge("rename", attempt(lambda: T.move_child_to("file", T, "file-renamed")))
+        judge("set_metadata_for", attempt(lambda: T.set_metadata_for("dir", {"touched": 1})))
+        judge("set_node", attempt(lambda: T.set_node("dir-again", listing["dir"][0])))
+
+        def copy():
+            d = writer.create_dirnode(initial_children=rt.wait(T.list()))
+            d.addCallback(lambda nd: root.set_node("copy", nd))
+            return d
+        judge("copy", attempt(copy))
+        judge("create_subdirectory",
+              attempt(lambda: T.create_subdirectory("sub2", initial_children={"f": (listing["dir"][0], {})})))
+        judge("move-to-parent", attempt(lambda: T.move_child_to("dir", root, "dir-moved")))
+    finally:
+        write_blacklist([])
+
+
 def run(ctx):
     common.setup_impl_path()
     import grid
@@ -408,25 +488,28 @@ def run(ctx):
     if ctx.replay:
         c = ctx.replay["case"]
         c = c["case"] if "case" in c else c
-        cases_in, lone = ([], [c]) if c.get("lone") else ([c], [])
+        cases_in, lone = ([], [c]) if (c.get("lone") or c.get("prohibited")) else ([c], [])
     else:
         corpus_only = os.environ.get("VERIF_CORPUS_ONLY") == "1"
         cases_in = [json.loads(json.dumps(c)) for c in GRAPH_CORPUS + c21.CORPUS]
         for i in range(0 if corpus_only else ctx.budget(22, 250)):
             cases_in.append(c21.gen_graph(ctx.rng, ctx.rng.choice([3, 6, 10, 16, 25])))
-        lone = [json.loads(json.dumps(c)) for c in LONE_CORPUS]
+        lone = [json.loads(json.dumps(c)) for c in LONE_CORPUS + PROHIBITED_CORPUS]
         for i in range(0 if corpus_only else ctx.budget(4, 60)):
             lone.append({"lone": True, "mdmf": ctx.rng.random() < 0.5, "depth": ctx.rng.choice([2, 2, 3, 4]),
                          "token": "%08x" % ctx.rng.randrange(1 << 32)})
+        for i in range(0 if corpus_only else ctx.budget(2, 30)):
+            lone.append({"prohibited": True, "mdmf": ctx.rng.random() < 0.5, "depth": ctx.rng.choice([1, 2, 3])})
     lines, impls, cases = [], [], []
     with grid.Runtime(seed=ctx.seed, policy="random") as rt:
         g = grid.Grid(grid.fresh_dir("c18"), rt, num_servers=3, num_clients=2, k=1, happy=1, n=2)
         try:
-            W = {"rt": rt, "c": g.clients[0], "c2": g.clients[1]}
+            W = {"rt": rt, "c": g.clients[0], "c2": g.clients[1], "g": g}
             for case in cases_in:
                 one_case(ctx, W, case, lines, impls, cases)
             for case in lone:
-                guarded(ctx, case, "lone write-slot cap family", lambda: lone_case(ctx, W, case))
+                guarded(ctx, case, "write-authority-only family",
+                        lambda: (prohibited_case if case.get("prohibited") else lone_case)(ctx, W, case))
         finally:
             g.close()
     model = ctx.model(lines)
